@@ -57,6 +57,7 @@ func runSpecial(c *core.Ctx) []core.Obligation {
 	obs = append(obs, capRadiusArithmetic(c)...)
 	obs = append(obs, rawLongitudeLiterals(c)...)
 	obs = append(obs, capExpandedSaturates(c))
+	obs = append(obs, capInteriorFull(c))
 	return obs
 }
 
@@ -220,7 +221,6 @@ func guardedNonEmpty(fn *ssa.Function, owner ssa.Value, at *ssa.BasicBlock) bool
 	return false
 }
 
-
 // rawLongitudeLiterals (written after the sub-agent for C19 reported, on the unmodified tree, that
 // RectFromLatLng(LatLng{lat, -Pi}) is not a valid rectangle and does not contain its own point): a longitude interval
 // has ONE representation of the antimeridian, +Pi (s1.Interval.IsValid rejects Lo == -Pi unless the interval is full).
@@ -274,7 +274,6 @@ func rawLongitudeLiterals(c *core.Ctx) []core.Obligation {
 	return obs
 }
 
-
 // capExpandedSaturates (after round-7 seed C19-r7m2, a "single point" fast path in Cap.Expanded that builds the result
 // with CapFromCenterAngle(center, distance)): the distance may be any angle, including s1.InfAngle(), whose chord angle
 // is +Inf. The general path is safe because ChordAngle.Add saturates at StraightChordAngle; a result radius that does
@@ -317,4 +316,45 @@ func capExpandedSaturates(c *core.Ctx) core.Obligation {
 			"the result at "+bad+" does not take its radius from ChordAngle.Add, the only step that saturates at 180 degrees: expanded by s1.InfAngle() (or any angle whose chord angle is the +Inf sentinel) the cap gets an infinite radius, is neither valid nor full although it contains every point, and its complement is a single point instead of empty")
 	}
 	return core.Ob("R-SPECIAL", construct, c.Pos(fn.Pos()), core.FuncName(fn), core.Discharged, fmt.Sprintf("%d results: the empty cap, or center with radius.Add(...)", nret))
+}
+
+// capInteriorFull (after round-8 seed C19-r8m2, the `c.IsFull() ||` of Cap.InteriorContainsPoint dropped "because a
+// chord angle never exceeds StraightChordAngle"): the full cap has radius exactly StraightChordAngle and its interior is
+// the whole sphere, but the point antipodal to the centre is at chord angle exactly StraightChordAngle, so the strict
+// comparison `distance < radius` is false for it. The full case must be answered before the comparison.
+func capInteriorFull(c *core.Ctx) core.Obligation {
+	const construct = "(s2.Cap).InteriorContainsPoint:full-cap-first"
+	fn := c.Fn("s2", "Cap", "InteriorContainsPoint")
+	if fn == nil {
+		return core.Ob("R-SPECIAL", construct, "-", "", core.Violated, "unresolved anchor")
+	}
+	// the strict comparison with the radius must be reachable only on the "not full" side of an IsFull() test
+	var strict *ssa.BinOp
+	core.AllInstrs(fn, func(in ssa.Instruction) {
+		if bo, ok := in.(*ssa.BinOp); ok && (bo.Op == token.LSS || bo.Op == token.GTR) {
+			for _, o := range []ssa.Value{bo.X, bo.Y} {
+				if fr, ok := core.AsFieldLoad(o); ok && fr.Name == "radius" {
+					strict = bo
+				}
+			}
+		}
+	})
+	if strict == nil {
+		return core.Ob("R-SPECIAL", construct, c.Pos(fn.Pos()), core.FuncName(fn), core.Discharged, "no strict comparison with the radius")
+	}
+	for _, b := range fn.Blocks {
+		ifi, ok := b.Instrs[len(b.Instrs)-1].(*ssa.If)
+		if !ok {
+			continue
+		}
+		call, ok := ifi.Cond.(*ssa.Call)
+		if !ok || core.StaticCallee(call) == nil || core.StaticCallee(call).Name() != "IsFull" {
+			continue
+		}
+		if core.EdgeDominates(core.Edge{From: b, Idx: 1}, strict.Block()) {
+			return core.Ob("R-SPECIAL", construct, c.Pos(fn.Pos()), core.FuncName(fn), core.Discharged, "the strict comparison with the radius is reached only for a cap that is not full")
+		}
+	}
+	return core.Ob("R-SPECIAL", construct, c.Pos(strict.Pos()), core.FuncName(fn), core.Violated,
+		"the strict comparison distance < radius is also applied to the full cap: its radius is exactly StraightChordAngle and so is the chord angle of the point antipodal to its centre, so FullCap().InteriorContainsPoint(antipode) is false although the complement of the full cap is empty")
 }
